@@ -136,15 +136,20 @@ Lemma sort_callbacks_rel : forall kept,
   | SErr cs _ _ =>
       (forall n, In n (map cb_name cs) <-> In n (map cb_name kept))
       /\ (forall c, In c cs -> cb_remove c = false /\ cb_matched c = true)
-  | SCrash => True
+  | SCyc cs _ =>
+      (forall n, In n (map cb_name cs) <-> In n (map cb_name kept))
+      /\ (forall c, In c cs -> cb_remove c = false /\ cb_matched c = true)
   end.
 Proof.
-  intros kept Hf. destruct (sort_callbacks kept) as [cs fns|cs n t|] eqn:E; [| |exact Logic.I].
+  intros kept Hf. destruct (sort_callbacks kept) as [cs fns|cs n t|cs n] eqn:E.
   - destruct (sort_callbacks_once _ _ _ E (fun c Hc => proj1 (Hf c Hc))) as (K & ND & IN).
     split; [|split; [|split]]; auto.
     + intro n. rewrite (keys_in_names _ _ K). apply presort_names.
     + apply (keys_flags _ _ K). apply presort_flags, Hf.
   - pose proof (sort_callbacks_err_keys _ _ _ _ E) as K. split.
+    + intro m. rewrite (keys_in_names _ _ K). apply presort_names.
+    + apply (keys_flags _ _ K). apply presort_flags, Hf.
+  - pose proof (sort_callbacks_cyc_keys _ _ _ E) as K. split.
     + intro m. rewrite (keys_in_names _ _ K). apply presort_names.
     + apply (keys_flags _ _ K). apply presort_flags, Hf.
 Qed.
@@ -237,15 +242,17 @@ Lemma run_step_rel : forall p r s i,
 Proof.
   intros p r s i H. cbn zeta. unfold run_step.
   destruct (r_dom (ref_apply r i s)) eqn:Ed.
-  2:{ destruct (sort_callbacks _); try reflexivity; split; discriminate. }
+  2:{ destruct (sort_callbacks _); split; discriminate. }
   pose proof (H (dom_mono _ _ _ Ed)) as R.
   destruct (step_kept p r s i R Ed) as (Kn & Kf & Kd & Ku).
   pose proof (sort_callbacks_rel _ Kf) as S.
-  destruct (sort_callbacks (compile_filter (p_cs p ++ [cb_of_step s i]))) as [cs fns|cs en et|];
-    [| |reflexivity].
+  destruct (sort_callbacks (compile_filter (p_cs p ++ [cb_of_step s i]))) as [cs fns|cs en et|cs en].
   - destruct S as (Sn & Sf & Sd & Si). split.
     + intros _. constructor; cbn; auto. intro n. rewrite Sn. apply Kn.
     + intros _ f [= <-]. apply once_from_sets; auto. intro n. rewrite Si. apply Kn.
+  - destruct S as (Sn & Sf). split.
+    + intros _. constructor; cbn; auto. intro n. rewrite Sn. apply Kn.
+    + intros _ f. discriminate.
   - destruct S as (Sn & Sf). split.
     + intros _. constructor; cbn; auto. intro n. rewrite Sn. apply Kn.
     + intros _ f. discriminate.
